@@ -4,29 +4,25 @@ import PiqpModel.Solver
 /-!
 # C01 — SOLVED implies a valid optimality certificate
 
-Theorems about the solver model (`PiqpModel/Solver.lean`).
+Theorems about the control skeleton (`PiqpModel/Control.lean`), valid for **every** numeric back end
+(`LoopOps`): all five KKT formulations, refinement on or off, every pattern of factorisation failures.
 -/
 
 namespace Piqp.C01
 
 variable {K : Type}
-variable [Add K] [Sub K] [Mul K] [Div K] [Neg K] [Zero K] [One K] [LT K] [DecidableLT K] [LE K] [DecidableLE K]
-variable [NatCast K] [BEq K]
-variable {n p m : Nat}
+variable [Add K] [Sub K] [Mul K] [Div K] [Neg K] [Zero K] [One K] [LT K] [DecidableLT K] [LE K] [DecidableLE K] [BEq K]
+variable {σ : Type}
 
-/-- The loop head returns SOLVED only if the termination test holds for the diagnostics it computed. -/
-theorem phaseA_solved_test (e : Env K n p m) (iter0 : Bool) (w : Work K n p m) (info : Info K)
-    (h : (phaseA e iter0 w info).2.2 = some Status.solved) :
-    termTest e.st (headInfo e iter0 w info).2 = true := by
-  unfold phaseA at h
-  by_cases hc : termTest e.st (headInfo e iter0 w info).2 = true
-  · exact hc
-  · simp only [hc, Bool.false_eq_true, ↓reduceIte] at h
-    split at h
-    · simp at h
-    · split at h <;> simp at h
+omit [Neg K] [LE K] [DecidableLE K] in
+/-- Whenever the main loop returns SOLVED, the termination test holds for the diagnostics it returns — whatever the
+    numeric operations do (any search direction, any factorisation failures, any iteration count). -/
+theorem solved_implies_termination_test (st : Settings K) (cs : Consts K) (ops : LoopOps K σ) (c : Ctrl) (s : σ) (info : Info K)
+    (h : (loopG st cs ops c s info).2 = Status.solved) :
+    termTest st (loopG st cs ops c s info).1.2.2 = true := by
+  fun_induction loopG st cs ops c s info <;> simp_all [termTest]
 
-omit [Sub K] [Div K] [Neg K] [Zero K] [One K] [LE K] [DecidableLE K] [NatCast K] [BEq K] in
+omit [Sub K] [Div K] [Neg K] [Zero K] [One K] [LE K] [DecidableLE K] [BEq K] in
 /-- what the termination test says, clause by clause -/
 theorem termTest_iff (st : Settings K) (info : Info K) :
     termTest st info = true ↔
@@ -35,5 +31,16 @@ theorem termTest_iff (st : Settings K) (info : Info K) :
       (st.checkDualityGap = true → info.dualityGap < st.epsGapAbs + st.epsGapRel * info.dualityGapRel) := by
   unfold termTest
   cases st.checkDualityGap <;> simp [and_assoc]
+
+omit [Neg K] [LE K] [DecidableLE K] in
+/-- corollary: a SOLVED return carries `primal_inf < ε_abs + ε_rel·primal_rel_inf`, the same for the dual residual
+    and, if enabled, for the duality gap, for the diagnostics of the returned iterate -/
+theorem solved_diagnostics_within_tolerance (st : Settings K) (cs : Consts K) (ops : LoopOps K σ) (c : Ctrl) (s : σ) (info : Info K)
+    (h : (loopG st cs ops c s info).2 = Status.solved) :
+    let i := (loopG st cs ops c s info).1.2.2
+    i.primalInf < st.epsAbs + st.epsRel * i.primalRelInf ∧
+    i.dualInf < st.epsAbs + st.epsRel * i.dualRelInf ∧
+    (st.checkDualityGap = true → i.dualityGap < st.epsGapAbs + st.epsGapRel * i.dualityGapRel) :=
+  (termTest_iff st _).mp (solved_implies_termination_test st cs ops c s info h)
 
 end Piqp.C01
